@@ -10,7 +10,8 @@ F = ["cbor_incref", "cbor_decref", "cbor_intermediate_decref", "cbor_move", "cbo
 OPS = [("OP_INCREF", None), ("OP_DECREF_LEAF", None), ("OP_INTERMEDIATE_DECREF", None), ("OP_MOVE", None), ("OP_DECREF_ARRAY_SHARED", None), ("OP_DECREF_MAP", None),
        ("OP_DECREF_TAG", None), ("OP_DECREF_CHUNKED", 0), ("OP_DECREF_CHUNKED", 1), ("OP_PUSH", 0), ("OP_PUSH", 1), ("OP_PUSH_FULL", None), ("OP_REPLACE", 0), ("OP_REPLACE", 1),
        ("OP_SET_APPEND", 0), ("OP_SET_APPEND", 1), ("OP_GET", None), ("OP_MAP_ADD", 0), ("OP_MAP_ADD", 1), ("OP_ADD_CHUNK", 0), ("OP_ADD_CHUNK", 1), ("OP_TAG_SET_ITEM", None),
-       ("OP_TAG_ITEM", None), ("OP_BUILD_TAG", None), ("OP_COPY", None), ("OP_DECREF_NESTED", None)]
+       ("OP_TAG_ITEM", None), ("OP_BUILD_TAG", None), ("OP_COPY", None), ("OP_DECREF_NESTED", None),
+       ("OP_REPLACE_SAME", 0), ("OP_REPLACE_SAME", 1), ("OP_REPLACE_SAME", 2), ("OP_PUSH_AGAIN", None), ("OP_MAP_ADD_SAME", None)]
 US = ["cbor_decref.0:3", "cbor_decref.1:3", "cbor_decref.2:4", "cbor_decref.3:3", "_cbor_highest_bit.0:66"]
 
 
